@@ -8,7 +8,11 @@ import (
 	"strings"
 )
 
-var CopyForms = []string{"assign", "argret", "array", "dict", "field", "optional", "saveload", "anystruct", "refderef", "closure"}
+var CopyForms = []string{"assign", "argret", "array", "dict", "field", "optional", "saveload", "anystruct", "refderef", "closure", "arraylit", "dictlit", "arglit"}
+
+// litfx forms: the copy is made by evaluating `a` as an operand of a literal or call whose LATER operand has a side effect on the
+// variable a (through a closure): the copy must hold the value a had when it was evaluated. The mutation is always on the original.
+func isLitFx(form string) bool { return form == "arraylit" || form == "dictlit" || form == "arglit" }
 
 func (o Op) codeCopy(k int) (string, bool) {
 	if o.K != "cp.probe" {
@@ -22,6 +26,85 @@ func (o Op) codeCopy(k int) (string, bool) {
 	ts := o.T.Src()
 	w(`var %s = %s.copy<%s>(from: %s)!`, a, st, ts, sp(o.P))
 	w(`if %s.getType() != Type<%s>() { World.fail("value copied under a supertype") }`, a, ts)
+	tgt := c
+	if o.J == 1 || isLitFx(o.S) {
+		tgt = a
+	}
+	var mb strings.Builder
+	mw := func(f string, a ...any) { fmt.Fprintf(&mb, "        "+f+"\n", a...) }
+	switch copyKind(o.T) {
+	case "S":
+		switch o.I {
+		case 0:
+			mw(`%s.setA(%d)`, tgt, 900+o.N)
+		case 1:
+			mw(`%s.push(%d)`, tgt, 900+o.N)
+		case 2:
+			mw(`%s.put("cp", %d)`, tgt, 900+o.N)
+		case 3:
+			mw(`%s.addKid(World.mkS(%d, [], {}, [], nil, nil))`, tgt, 900+o.N)
+		case 4:
+			mw(`%s.setKidA(0, %d)`, tgt, 900+o.N)
+		case 5:
+			mw(`let %s = &%s as &World.S`, n("mr"), tgt)
+			mw(`%s.push(%d)`, n("mr"), 900+o.N)
+		case 6:
+			mw(`let %s = &%s as &World.S`, n("mr"), tgt)
+			mw(`%s.kids[0].setA(%d)`, n("mr"), 900+o.N)
+		case 7:
+			mw(`%s.pushOA(%d)`, tgt, 900+o.N)
+		case 8:
+			mw(`let %s = &%s as &World.S`, n("mr"), tgt)
+			mw(`%s.pushOA(%d)`, n("mr"), 900+o.N)
+		case 9:
+			mw(`%s.setO("cp%d")`, tgt, o.N)
+		}
+	case "Arr": // [S]
+		switch o.I {
+		case 0:
+			mw(`%s.append(World.mkS(%d, [], {}, [], nil, nil))`, tgt, 900+o.N)
+		case 1:
+			mw(`%s[0].setA(%d)`, tgt, 900+o.N)
+		case 2:
+			mw(`%s[0].push(%d)`, tgt, 900+o.N)
+		case 3:
+			mw(`let %s = &%s as auth(Mutate) &[World.S]`, n("mr"), tgt)
+			mw(`%s.append(World.mkS(%d, [], {}, [], nil, nil))`, n("mr"), 900+o.N)
+		case 4:
+			mw(`let %s = &%s as &[World.S]`, n("mr"), tgt)
+			mw(`%s[0].setA(%d)`, n("mr"), 900+o.N)
+		case 5:
+			mw(`%s.remove(at: 0)`, tgt)
+		case 6:
+			mw(`%s[0] = World.mkS(%d, [], {}, [], nil, nil)`, tgt, 900+o.N)
+		}
+	case "OArr": // [[Int]?]
+		switch o.I % 4 {
+		case 0:
+			mw(`%s[0]!.append(%d)`, tgt, 900+o.N)
+		case 1:
+			mw(`%s.append([%d])`, tgt, 900+o.N)
+		case 2:
+			mw(`%s[0] = nil`, tgt)
+		case 3:
+			mw(`let %s = &%s as auth(Mutate) &[[Int]?]`, n("mr"), tgt)
+			mw(`%s[0] = [%d]`, n("mr"), 900+o.N)
+		}
+	case "Dict": // {String: [Int]}
+		switch o.I {
+		case 0:
+			mw(`%s["cp"] = [%d]`, tgt, 900+o.N)
+		case 1:
+			mw(`%s["a"]!.append(%d)`, tgt, 900+o.N)
+		case 2:
+			mw(`%s.remove(key: "a")`, tgt)
+		case 3:
+			mw(`let %s = &%s as auth(Mutate) &{String: [Int]}`, n("mr"), tgt)
+			mw(`%s["a"] = (*(%s["a"]!)).concat([%d])`, n("mr"), n("mr"), 900+o.N)
+		default:
+			mw(`%s["a"] = []`, tgt)
+		}
+	}
 	switch o.S {
 	case "assign":
 		w(`var %s = %s`, c, a)
@@ -57,85 +140,27 @@ func (o Op) codeCopy(k int) (string, bool) {
 	case "closure":
 		w(`let %s = fun (): %s { return %s }`, n("box"), ts, a)
 		w(`var %s = %s()`, c, n("box"))
+	case "arraylit", "dictlit", "arglit":
+		w(`let %s = fun (): Bool {`, n("fx"))
+		b.WriteString(strings.ReplaceAll(mb.String(), "        ", "            "))
+		w(`    return true`)
+		w(`}`)
+		switch o.S {
+		case "arraylit":
+			w(`let %s: [AnyStruct] = [%s, %s()]`, n("box"), a, n("fx"))
+			w(`var %s = %s[0] as! %s`, c, n("box"), ts)
+		case "dictlit":
+			w(`let %s: {String: AnyStruct} = {"k": %s, "z": %s()}`, n("box"), a, n("fx"))
+			w(`var %s = %s["k"]! as! %s`, c, n("box"), ts)
+		default:
+			w(`let %s = fun (_ x: %s, _ y: Bool): %s { return x }`, n("first"), ts, ts)
+			w(`var %s = %s(%s, %s())`, c, n("first"), a, n("fx"))
+		}
 	default:
 		panic("harness: copy form " + o.S)
 	}
-	tgt := c
-	if o.J == 1 {
-		tgt = a
-	}
-	switch copyKind(o.T) {
-	case "S":
-		switch o.I {
-		case 0:
-			w(`%s.setA(%d)`, tgt, 900+o.N)
-		case 1:
-			w(`%s.push(%d)`, tgt, 900+o.N)
-		case 2:
-			w(`%s.put("cp", %d)`, tgt, 900+o.N)
-		case 3:
-			w(`%s.addKid(World.mkS(%d, [], {}, [], nil, nil))`, tgt, 900+o.N)
-		case 4:
-			w(`%s.setKidA(0, %d)`, tgt, 900+o.N)
-		case 5:
-			w(`let %s = &%s as &World.S`, n("mr"), tgt)
-			w(`%s.push(%d)`, n("mr"), 900+o.N)
-		case 6:
-			w(`let %s = &%s as &World.S`, n("mr"), tgt)
-			w(`%s.kids[0].setA(%d)`, n("mr"), 900+o.N)
-		case 7:
-			w(`%s.pushOA(%d)`, tgt, 900+o.N)
-		case 8:
-			w(`let %s = &%s as &World.S`, n("mr"), tgt)
-			w(`%s.pushOA(%d)`, n("mr"), 900+o.N)
-		case 9:
-			w(`%s.setO("cp%d")`, tgt, o.N)
-		}
-	case "Arr": // [S]
-		switch o.I {
-		case 0:
-			w(`%s.append(World.mkS(%d, [], {}, [], nil, nil))`, tgt, 900+o.N)
-		case 1:
-			w(`%s[0].setA(%d)`, tgt, 900+o.N)
-		case 2:
-			w(`%s[0].push(%d)`, tgt, 900+o.N)
-		case 3:
-			w(`let %s = &%s as auth(Mutate) &[World.S]`, n("mr"), tgt)
-			w(`%s.append(World.mkS(%d, [], {}, [], nil, nil))`, n("mr"), 900+o.N)
-		case 4:
-			w(`let %s = &%s as &[World.S]`, n("mr"), tgt)
-			w(`%s[0].setA(%d)`, n("mr"), 900+o.N)
-		case 5:
-			w(`%s.remove(at: 0)`, tgt)
-		case 6:
-			w(`%s[0] = World.mkS(%d, [], {}, [], nil, nil)`, tgt, 900+o.N)
-		}
-	case "OArr": // [[Int]?]
-		switch o.I % 4 {
-		case 0:
-			w(`%s[0]!.append(%d)`, tgt, 900+o.N)
-		case 1:
-			w(`%s.append([%d])`, tgt, 900+o.N)
-		case 2:
-			w(`%s[0] = nil`, tgt)
-		case 3:
-			w(`let %s = &%s as auth(Mutate) &[[Int]?]`, n("mr"), tgt)
-			w(`%s[0] = [%d]`, n("mr"), 900+o.N)
-		}
-	case "Dict": // {String: [Int]}
-		switch o.I {
-		case 0:
-			w(`%s["cp"] = [%d]`, tgt, 900+o.N)
-		case 1:
-			w(`%s["a"]!.append(%d)`, tgt, 900+o.N)
-		case 2:
-			w(`%s.remove(key: "a")`, tgt)
-		case 3:
-			w(`let %s = &%s as auth(Mutate) &{String: [Int]}`, n("mr"), tgt)
-			w(`%s["a"] = (*(%s["a"]!)).concat([%d])`, n("mr"), n("mr"), 900+o.N)
-		default:
-			w(`%s["a"] = []`, tgt)
-		}
+	if !isLitFx(o.S) {
+		b.WriteString(mb.String())
 	}
 	w(`%s`, ob("cpa", o.T, false, a))
 	w(`%s`, ob("cpb", o.T, false, c))
@@ -169,7 +194,7 @@ func (m *Model) applyCopy(o Op, pr *Pred) (string, bool) {
 		}
 	}
 	tgt := c
-	if o.J == 1 {
+	if o.J == 1 || isLitFx(o.S) {
 		tgt = a
 	}
 	k := int64(900 + o.N)
